@@ -44,4 +44,4 @@ for sid in ids:
     verdict = 'DETECTED' if rc == 1 and vio else ('MISSED' if rc == 0 else 'ERROR rc=%s' % rc)
     rows.append((sid, verdict, (detail[0] if detail else (ne[0] if ne else ''))[:160], round(time.time() - t0, 1)))
     print(rows[-1], flush=True)
-json.dump(rows, open('/verif/seeded/last_run_%s.json' % tier, 'w'), indent=1)
+json.dump(rows, open(os.environ.get('SEED_OUT', '/verif/seeded/last_run_%s.json' % tier), 'w'), indent=1)
